@@ -22,6 +22,7 @@ import (
 	"encoding/binary"
 	"encoding/hex"
 	"fmt"
+	"hash/crc32"
 	"io"
 	"os"
 	"path/filepath"
@@ -79,9 +80,9 @@ type RaceCase struct {
 func genRace(t *rapid.T) RaceCase {
 	var c RaceCase
 	c.Seed = rapid.Uint64Range(0, 1<<53).Draw(t, "seed")
-	sizes := []int{64, 256, 1024, 2048, 4096, 4096, 8192}
+	sizes := []int{64, 512, 2048, 4096, 4096}
 	if os.Getenv("VERIF_TIER") == "thorough" {
-		sizes = []int{64, 512, 2048, 4096, 8192, 8192, 16384}
+		sizes = []int{64, 512, 2048, 4096, 4096, 8192}
 	}
 	c.SizeKiB = rapid.SampledFrom(sizes).Draw(t, "size_kib")
 	c.Odd = rapid.SampledFrom([]int{0, 0, 1, 511, 4095}).Draw(t, "odd")
@@ -114,7 +115,11 @@ func genRace(t *rapid.T) RaceCase {
 
 // fillBytes expands a seed into n bytes (xorshift64; a pure function of the case).
 func fillBytes(seed uint64, n int) []byte {
-	b := make([]byte, n+8)
+	return fillInto(make([]byte, n+8), seed, n)
+}
+
+// fillInto does the same into b, which must have room for n+8 bytes.
+func fillInto(b []byte, seed uint64, n int) []byte {
 	x := seed | 1
 	for i := 0; i < n; i += 8 {
 		x ^= x << 13
@@ -125,25 +130,32 @@ func fillBytes(seed uint64, n int) []byte {
 	return b[:n:n]
 }
 
-func racePayload(blob []byte, seed uint64, op RaceOp) []byte {
+// racePayload builds the bytes of a write op in scratch (reused between the ops of a case: the
+// store copies what it is given, and pollers only ever read blob, never scratch).
+func racePayload(blob []byte, seed uint64, op RaceOp, scratch []byte) []byte {
 	n := len(blob)
 	switch op.Mut {
 	case "flip": // same length, one bit differs
-		out := append([]byte{}, blob...)
+		out := scratch[:n]
+		copy(out, blob)
 		out[(op.Arg/8)%n] ^= 1 << uint(op.Arg%8)
 		return out
 	case "other": // same length, unrelated content
-		return fillBytes(seed+0x9e3779b97f4a7c15, n)
+		return fillInto(scratch, seed+0x9e3779b97f4a7c15, n)
 	case "trunc":
 		cut := 1 + op.Arg%4096
 		if cut > n {
 			cut = n
 		}
-		return append([]byte{}, blob[:n-cut]...)
+		out := scratch[:n-cut]
+		copy(out, blob)
+		return out
 	case "extend":
-		out := append([]byte{}, blob...)
-		for i := 0; i <= op.Arg%9; i++ {
-			out = append(out, byte(op.Arg+i))
+		k := 1 + op.Arg%9
+		out := scratch[:n+k]
+		copy(out, blob)
+		for i := 0; i < k; i++ {
+			out[n+i] = byte(op.Arg + i)
 		}
 		return out
 	}
@@ -153,8 +165,7 @@ func racePayload(blob []byte, seed uint64, op RaceOp) []byte {
 // servedIs reads r to the end and reports whether it served exactly blob. The common case is a
 // streaming comparison; only when the stream deviates are the served bytes hashed (prefix that
 // equalled blob + the rest of the stream), so that the verdict is "sha256(served) != name".
-func servedIs(r io.Reader, blob []byte, name string) (match bool, n int, servedHex string, err error) {
-	buf := make([]byte, 256<<10)
+func servedIs(r io.Reader, blob []byte, name string, buf []byte) (match bool, n int, servedHex string, err error) {
 	off := 0
 	for {
 		k, rerr := r.Read(buf)
@@ -189,6 +200,38 @@ func servedIs(r io.Reader, blob []byte, name string) (match bool, n int, servedH
 		return sum == name, off, sum, nil
 	}
 	return true, off, name, nil
+}
+
+// refMetaInfoMemo is refMetaInfo with the reference crc32 piece sums of blob memoised per piece
+// length (the reference is still computed here, from blob, with hash/crc32).
+func refMetaInfoMemo(mi *core.MetaInfo, name string, blob []byte, memo map[int64][]uint32) string {
+	if mi == nil {
+		return "nil metainfo"
+	}
+	pl := mi.PieceLength()
+	if mi.Digest().Hex() != name || mi.Length() != int64(len(blob)) || pl <= 0 {
+		return refMetaInfo(mi, name, blob) // produces the message
+	}
+	ref, ok := memo[pl]
+	if !ok {
+		for lo := int64(0); lo < int64(len(blob)); lo += pl {
+			hi := lo + pl
+			if hi > int64(len(blob)) {
+				hi = int64(len(blob))
+			}
+			ref = append(ref, crc32.ChecksumIEEE(blob[lo:hi]))
+		}
+		memo[pl] = ref
+	}
+	if mi.NumPieces() != len(ref) {
+		return fmt.Sprintf("metainfo has %d pieces, want %d (length %d, piece length %d)", mi.NumPieces(), len(ref), len(blob), pl)
+	}
+	for i, want := range ref {
+		if mi.GetPieceSum(i) != want {
+			return fmt.Sprintf("metainfo piece %d checksum does not match the content of the digest", i)
+		}
+	}
+	return ""
 }
 
 type raceWatch struct {
@@ -326,15 +369,20 @@ func runRace(c RaceCase) pbt.Verdict {
 	if pollers > 4 {
 		pollers = 4
 	}
+	// Every poll that did not find a violation is followed by a brief pause (pacing only: it keeps
+	// the pollers from starving the writer of CPU; no verdict depends on it).
+	idle := func() { time.Sleep(40 * time.Microsecond) }
 	nLoops := 0
 	for i := 0; i < pollers; i++ {
 		nLoops += 3
-		w.loop(func() { // data
+		buf := make([]byte, 256<<10) // one read buffer per data poller
+		w.loop(func() {              // data
 			r, err := e.cas.GetCacheFileReader(name)
 			if err != nil {
+				idle()
 				return
 			}
-			match, n, sum, rerr := servedIs(r, blob, name)
+			match, n, sum, rerr := servedIs(r, blob, name, buf)
 			r.Close()
 			if rerr != nil {
 				w.readErrs.Add(1)
@@ -346,10 +394,12 @@ func runRace(c RaceCase) pbt.Verdict {
 				return
 			}
 			w.sawData.Add(1)
+			idle()
 		})
 		w.loop(func() { // size
 			st, err := e.cas.GetCacheFileStat(name)
 			if err != nil {
+				idle()
 				return
 			}
 			if st.Size() != int64(len(blob)) {
@@ -358,18 +408,23 @@ func runRace(c RaceCase) pbt.Verdict {
 				return
 			}
 			w.sawStat.Add(1)
+			idle()
 		})
-		w.loop(func() { // torrent metainfo
+		sums := map[int64][]uint32{} // reference piece sums of blob per piece length, computed by this poller
+		// torrent metainfo
+		w.loop(func() {
 			var tm metadata.TorrentMeta
 			if err := e.cas.GetCacheFileMetadata(name, &tm); err != nil {
+				idle()
 				return
 			}
-			if msg := refMetaInfo(tm.MetaInfo, name, blob); msg != "" {
+			if msg := refMetaInfoMemo(tm.MetaInfo, name, blob, sums); msg != "" {
 				w.fail("torrent metainfo served under a digest does not describe its content (GetCacheFileMetadata, concurrent reader)\n  while %s: name %s: %s",
 					w.phase.Load(), name, msg)
 				return
 			}
 			w.sawMeta.Add(1)
+			idle()
 		})
 	}
 	if c.Drain && c.Mem {
@@ -384,6 +439,7 @@ func runRace(c RaceCase) pbt.Verdict {
 		runtime.Gosched()
 	}
 
+	scratch := make([]byte, size+32)
 	classes := map[string]bool{}
 	nontrivial := false
 	if c.Drain && c.Mem {
@@ -401,7 +457,7 @@ func runRace(c RaceCase) pbt.Verdict {
 		switch op.Kind {
 		case "refresh":
 			isWrite = true
-			data = racePayload(blob, c.Seed, op)
+			data = racePayload(blob, c.Seed, op, scratch)
 			stat := len(data)
 			if op.StatTrue {
 				stat = len(blob)
@@ -422,11 +478,11 @@ func runRace(c RaceCase) pbt.Verdict {
 			}, pl)
 		case "write":
 			isWrite = true
-			data = racePayload(blob, c.Seed, op)
+			data = racePayload(blob, c.Seed, op, scratch)
 			werr = e.cas.WriteCacheFile(name, func(fw store.FileReadWriter) error { return writeChunks(fw, data, wop) })
 		case "upload":
 			isWrite = true
-			data = racePayload(blob, c.Seed, op)
+			data = racePayload(blob, c.Seed, op, scratch)
 			uid := fmt.Sprintf("upload-%d", i)
 			werr = e.cas.CreateUploadFile(uid, 0)
 			if werr == nil {
